@@ -325,3 +325,13 @@ def run_hessdiag(c):
     d = np.asarray(extract_hess_inv_diag(H), dtype=float)
     dd = np.diag(H.todense())
     return dict(diag=d.tolist(), dense_diag=dd.tolist(), shape_ok=bool(d.shape == (c["n"],)))
+
+
+@register("unit_scaler")
+def run_unit_scaler(c):
+    from lbfgsb import get_gradient_projection_unit_scaling
+    x, g, l, u = (np.array(c[k], dtype=float) for k in ("x", "g", "l", "u"))
+    with np.errstate(all="ignore"):
+        v = float(get_gradient_projection_unit_scaling(x, g, l, u))
+        ref = float(1.0 / np.max(np.abs(x - np.clip(x - g, l, u))))
+    return dict(value=v, ref=ref)
